@@ -20,7 +20,7 @@ RULE = ("Hypothesis draws (data family, image shape 2-D 12..24 per axis [rectang
         "[0,0.99], max_iter in [2,100], each of thresh/crop/max_iter sometimes left at its default; a small class runs "
         "the all-default constructor). Data: complex Gaussian k-space, or centred FFT of (Gaussian-bump x linear-phase "
         "maps | sigpy birdcage_maps) x image with |image| in [0.5,1.5] and random phase, all from default_rng(case seed), "
-        "times an overall scale in {1, 1e-3, 1e3}. "
+        "times an overall scale in {1, 1e-3, 1e3} or (rarely) one whose squares under/overflow the dtype (1e-24, 1e20 in complex64; 1e-170, 1e160 in complex128). "
         "Oracle per voxel: l2 norm over coils is exactly 0 or within 1e-5 of 1; exactly 0 where the returned eigenvalue "
         "<= crop and non-zero where it is > crop; coil 0 has |imag| <= 1e-6 and real >= 0; eigenvalues in [-1e-6, 1+1e-5]; "
         "maps.shape == ksp.shape; all values finite. Recovery class (parameters by construction inside the well-posed "
@@ -133,7 +133,8 @@ def recovery_domain(case):
 
 st_crop = st.one_of(st.sampled_from([0.0, 0.5, 0.9, 0.95, 0.99]), st.floats(0.0, 0.99, allow_nan=False))
 st_iter = st.one_of(st.integers(2, 6), st.integers(2, 100))
-st_thresh = st.one_of(st.sampled_from([0.005, 0.02, 0.1]), st.floats(0.005, 0.1, allow_nan=False))
+st_thresh = st.one_of(st.sampled_from([0.005, 0.02, 0.1]), st.floats(0.005, 0.1, allow_nan=False),
+                      st.sampled_from([0.3, 0.5, 0.7]))      # large: few singular vectors kept, eigenvalues stay below 1
 
 
 def _maybe(draw, strat, p_default=4):
@@ -147,7 +148,11 @@ def st_case(draw):
     dtype = draw(st.sampled_from(["complex128", "complex128", "complex64"]))
     seed = draw(A.seeds)
     plain = draw(st.integers(0, 3)) == 0
-    scale = draw(st.sampled_from([1.0, 1.0, 1e-3, 1e3]))
+    scale = draw(st.sampled_from([1.0, 1.0, 1e-3, 1e3, "tiny", "huge"]))
+    if scale == "tiny":        # magnitudes whose SQUARES leave the dtype's range (the maps do not depend on the scale)
+        scale = 1e-24 if dtype == "complex64" else 1e-170
+    elif scale == "huge":
+        scale = 1e20 if dtype == "complex64" else 1e160
     params = {}
     if cls == "defaults":
         fam = draw(st.sampled_from(["gauss", "bump", "bird"]))
